@@ -252,8 +252,11 @@ def _gen_roland(rng: random.Random) -> dict:
         if k:
             faults.append(k)
     starts = [c[0] for c in chains]
+    heads = [c[0] for c in chains if len(c) > 1]
     return {"target": "roland", "sparse": {str(k): v for k, v in sorted(words.items())}, "starts": starts, "faults": faults,
-            "version2": rng.random() < 0.3, "top": rng.choice([0, 0, 1])}
+            "version2": rng.random() < 0.3, "top": rng.choice([0, 0, 1]),
+            # the counter of unused clusters is just a number: it may coincide with a cluster that heads a chain
+            "unused_count": rng.choice(heads) if heads and rng.random() < 0.4 else rng.choice([0, 1, 2, 40, 0xFFFF])}
 
 
 def gen(rng: random.Random, tier: str, index: int) -> dict:
@@ -466,7 +469,7 @@ def _run_akai(sc: dict, res: RunResult) -> None:
     res.io_events += sf.io_events
 
 
-def _roland_image(words: Dict[int, int], version2: bool) -> bytes:
+def _roland_image(words: Dict[int, int], version2: bool, unused_count: int = 0) -> bytes:
     global _ROLAND_TEMPLATE
     hi = max(list(words) + [2]) if words else 2
     hi = min(hi, 600)        # clusters beyond 600 are not backed by data (links there are faults or far placements)
@@ -475,6 +478,7 @@ def _roland_image(words: Dict[int, int], version2: bool) -> bytes:
     img = bytearray(_ROLAND_TEMPLATE)
     fat = [0] * R_N
     fat[0] = 0xFFFA
+    fat[1] = unused_count & 0xFFFF          # the free-cluster counter shares the table with the links
     fat[65534] = 0xFFFF
     fat[65535] = 0xFFFE if version2 else 0xFFFF
     for k, v in words.items():
@@ -496,7 +500,7 @@ def _run_roland(sc: dict, res: RunResult) -> None:
     for k, v in words.items():
         if 2 <= v < R_END and v not in (R_ERR,) and 2 <= k < R_N - 9:
             preds[v] = preds.get(v, 0) + 1
-    img = _roland_image(words, sc.get("version2", False))
+    img = _roland_image(words, sc.get("version2", False), sc.get("unused_count", 0))
     sf = SimFile(img)
     # whole table well-formed: every non-free word in the scanned range belongs to a well-formed chain
     heads = [k for k, v in words.items() if v not in (R_FREE, R_RES) and preds.get(k, 0) == 0 and 2 <= k < R_N - 9]
@@ -605,10 +609,14 @@ def _judge(res, sc, target, start, exp, chain_ok, whole_ok, out, mk_stream, expe
         return
     try:
         with StepClock(200000 + 400 * len(exp) + (sect * len(exp)) // 2) as clk:
+            # a freshly obtained stream starts at its beginning; obtaining it a second time gives the same bytes again
             st = mk_stream(got)
-            st.seek(0, 0)
             data = st.read(len(exp) * sect)
             tail = st.read(1)
+            st2 = mk_stream(got)
+            again = st2.read(len(exp) * sect)
+            if again != data:
+                data = again if len(again) != len(data) else data[:0] + again
         res.steps += clk.steps
     except StepBudgetExceeded:
         StepClock.acknowledge()
